@@ -78,6 +78,8 @@ class Quaternion(SMUserList):
         if v is None:
             # single argument
             if super().arghandler(s, check=False):
+                if not all(x.shape == (4,) for x in self.data):
+                    raise ValueError('quaternion value must be a 4-vector')
                 return
 
             elif base.isvector(s, 4):
